@@ -163,3 +163,16 @@ Arguments rg_num_rows {R}.
 Arguments rg_columns {R}.
 Arguments rg_parts {R}.
 Arguments rg_rows {R}.
+
+(* the typing glue of filter_out_cats as a finite table (the harness fills it by calling the real
+   util.val_to_num): (partition name, raw text, constant) |-> (constant as compared, value as compared) *)
+Definition conv_table (t : list (string * string * pv * (pv * pv))) (cat v : string) (c : pv) : pv * pv :=
+  match find (fun e => String.eqb (fst (fst (fst e))) cat && String.eqb (snd (fst (fst e))) v && pv_eqb (snd (fst e)) c) t with
+  | Some e => snd e
+  | None => (c, PStr v)
+  end.
+
+(* index lists of the kept row groups, for the correspondence check *)
+Definition kept_indices (fv : pv -> pv -> pv -> pv -> res pv) (t : list (string * string * pv * (pv * pv)))
+  (known : list string) (rgs : list (rowgroup Z)) (f : filters) : res (list Z) :=
+  read_filtered Z fv (conv_table t) known rgs f.
